@@ -97,3 +97,60 @@ Qed.
 Corollary sam_literals sp v n : run_yaml sp v = Ok n ->
   forall s, In s (n_sam n) -> sr_start s < 2 ^ n_aw n /\ (sr_end s < 2 ^ n_aw n \/ sr_end s = 2 ^ n_aw n).
 Proof. intros H s Hs. pose proof (sam_bounds_within_aw sp v n H s Hs). lia. Qed.
+
+(* ------------------------------------------------------------------ bounds of the router tables against the identifier width *)
+From FV Require Import IdProofs RouteMapProofs.
+
+(* every rule of every emitted ID table starts below 2^id_bits and ends at most at 2^id_bits: the only rule end
+   that does not fit the identifier field is end = 2^id_bits exactly (N = 2^k endpoints) -- the known finding
+   C12:field-overflow:table-end=2^id_bits, shown to be the only possible overflow of a table bound *)
+Theorem table_bounds_within_id_bits sp d g c ri :
+  build d = Ok g -> compile d g = Ok c -> d_algo d = ID -> gen_routing_info sp c = Ok ri ->
+  forall e ru, In e (ri_tables ri) -> In ru (snd e) -> 0 <= st ru < en ru /\ en ru <= 2 ^ ri_id_bits ri.
+Proof.
+  intros Hb Hc Ha Hri e ru He Hru.
+  assert (Hcd : c_desc c = d) by apply (compile_desc d g c Hc).
+  destruct (gri_inv _ _ _ Hri) as (_ & _ & _ & Htab & _). specialize (Htab ltac:(rewrite Hcd; exact Ha)).
+  destruct (mapM_In _ _ _ _ Htab He) as (r & Hr & Hq). inv_bind Hq. inversion Hq; subst e; clear Hq. cbn [snd] in Hru.
+  destruct (id_bits_cover sp c ri Hri) as (HN & _ & Hcov).
+  unfold gen_table in E. inv_bind E.
+  (* the untrimmed rules: one per interface, [id, id+1) with 0 <= id < N *)
+  assert (Hrules : forall x, In x a0 -> 0 <= st x /\ en x = st x + 1 /\ st x < Z.of_nat (length (c_nis c))).
+  { intros x Hx. destruct (mapM_In _ _ _ _ E0 Hx) as (t & Ht & Hqt). cbv beta in Hqt.
+    destruct (sp (c_graph c) (cr_name r) (cn_name t)) as [[|? [|? ?]]|]; try discriminate.
+    destruct (out_index r _); [|discriminate]. inv_bind Hqt. inversion Hqt; subst x; clear Hqt. cbn.
+    assert (Hxy : d_algo d <> XY) by (rewrite Ha; discriminate).
+    rewrite (ids_are_uids d g c Hc Hxy t Ht) in E2. cbn in E2. inversion E2; subst a2.
+    pose proof (uids_range d g c Hb Hc t Ht). lia. }
+  unfold mk_map in E1. destruct (check_no_overlap a0) eqn:Eo; [|discriminate]. inversion E1; subst a1; clear E1.
+  assert (Hwf : Forall wf a0) by (apply Forall_forall; intros x Hx; destruct (Hrules x Hx) as (A & B & _); unfold wf; lia).
+  destruct (trim_correct a0 Hwf (proj1 (check_no_overlap_iff a0 Hwf) Eo)) as (t' & Ht' & Hdec & Hwf' & _).
+  rewrite Ht' in E. inversion E; subst a; clear E.
+  rewrite Forall_forall in Hwf'. pose proof (Hwf' ru Hru) as Hw. unfold wf in Hw.
+  (* both ends of the trimmed rule decode in the original table, hence lie in [0, N) *)
+  assert (Hin : forall z, st ru <= z < en ru -> 0 <= z < Z.of_nat (length (c_nis c))).
+  { intros z Hz. assert (Hd : decodes t' z (dest ru)) by (exists ru; unfold matches; auto).
+    apply Hdec in Hd. destruct Hd as (x & Hx & Hm & _). destruct (Hrules x Hx) as (A & B & C). unfold matches in Hm. lia. }
+  pose proof (Hin (st ru) ltac:(lia)). pose proof (Hin (en ru - 1) ltac:(lia)).
+  rewrite HN in Hcov. lia.
+Qed.
+
+(* the same on the emitted netlist: the rules of every router's address map fit the identifier field *)
+Theorem netlist_table_bounds sp v n : run_yaml sp v = Ok n ->
+  forall r nm n1 n2 iw rules, In r (n_rts n) -> r_map r = Some (nm, (n1, (n2, (iw, rules)))) ->
+  exists b, n_id_bits n = Some b /\ forall ru, In ru rules -> 0 <= st ru < en ru /\ en ru <= 2 ^ b.
+Proof.
+  intros H. unfold run_yaml in H. destruct (parse_desc v) as [d|] eqn:Hp; [|discriminate]. cbn [bind] in H.
+  destruct (run_inv _ _ _ H) as (g & c & ri & Hb & Hc & Hr & He).
+  destruct (emit_inv _ _ _ He) as (_ & axi & rts & _ & Hrts & ->). cbn [n_rts n_id_bits].
+  destruct (compile_desc _ _ _ Hc) as (Hd & Hg). rewrite Hd in *.
+  intros r nm n1 n2 iw rules Hin Hm.
+  destruct (mapM_In _ _ _ _ Hrts Hin) as (cr & Hcr & Hq).
+  destruct (emit_rt_counts _ _ _ _ Hq) as (_ & _ & _ & _ & _ & _ & _ & _ & _ & Hmap).
+  rewrite Hmap in Hm. destruct (d_algo d) eqn:Ha; try discriminate.
+  destruct (find _ (ri_tables ri)) as [[k rl]|] eqn:Hf; [|discriminate].
+  inversion Hm; subst nm n1 n2 iw rules; clear Hm.
+  exists (ri_id_bits ri). split; [reflexivity|]. intros ru Hru.
+  apply find_some in Hf. destruct Hf as (Hf & _).
+  exact (table_bounds_within_id_bits sp d g c ri Hb Hc Ha Hr (k, rl) ru Hf Hru).
+Qed.
